@@ -134,20 +134,22 @@ func (m *Machine) binop(op token.Token, x, y Val) Val {
 			}
 			panic(Unsupported{"float arithmetic " + op.String()})
 		}
-		fa, fb := m.fp(a), m.fp(b)
+		// IEEE comparisons encoded over the bit patterns (pure bit-vector
+		// terms; proved equivalent to fp.lt/fp.leq/fp.eq of the FloatingPoint
+		// theory by the lemma the checks run, see lib/fplemma.py)
 		switch op {
 		case token.LSS:
-			return Bool{T: m.app(0, "fp.lt", fa, fb)}
+			return mkBool(m.fpLess(a, b, false))
 		case token.LEQ:
-			return Bool{T: m.app(0, "fp.leq", fa, fb)}
+			return mkBool(m.fpLess(a, b, true))
 		case token.GTR:
-			return Bool{T: m.app(0, "fp.gt", fa, fb)}
+			return mkBool(m.fpLess(b, a, false))
 		case token.GEQ:
-			return Bool{T: m.app(0, "fp.geq", fa, fb)}
+			return mkBool(m.fpLess(b, a, true))
 		case token.EQL:
-			return Bool{T: m.app(0, "fp.eq", fa, fb)}
+			return mkBool(m.fpEq(a, b))
 		case token.NEQ:
-			return Bool{T: m.tNot(m.app(0, "fp.eq", fa, fb))}
+			return mkBool(m.tNot(m.fpEq(a, b)))
 		}
 		panic(Unsupported{"float arithmetic " + op.String()})
 	case Bool:
@@ -460,4 +462,41 @@ func (m *Machine) shift(op token.Token, a, b Int) Val {
 	}
 	// SMT-LIB shifts already saturate (shl/lshr give 0, ashr gives sign) for counts ≥ width
 	return Int{Bits: a.Bits, Signed: a.Signed, T: m.app(a.Bits, o, a.Term(), cnt)}
+}
+
+func (m *Machine) fpParts(f Float) (nan, zero, key *Term) {
+	x := f.BV()
+	n := f.Bits
+	var eb int
+	if n == 32 {
+		eb = 8
+	} else {
+		eb = 11
+	}
+	mb := n - 1 - eb
+	exp := m.app(eb, fmt.Sprintf("(_ extract %d %d)", n-2, mb), x)
+	man := m.app(mb, fmt.Sprintf("(_ extract %d 0)", mb-1), x)
+	nan = m.tAnd(m.tEq(exp, bvConst(^uint64(0), eb)), m.tNot(m.tEq(man, bvConst(0, mb))))
+	zero = m.tEq(m.app(n-1, fmt.Sprintf("(_ extract %d 0)", n-2), x), bvConst(0, n-1))
+	sign := m.tEq(m.app(1, fmt.Sprintf("(_ extract %d %d)", n-1, n-1), x), bvConst(1, 1))
+	key = m.tIte(sign, m.app(n, "bvnot", x), m.app(n, "bvor", x, bvConst(uint64(1)<<uint(n-1), n)))
+	return
+}
+
+// fpLess: a < b (orEq: a <= b) under IEEE semantics.
+func (m *Machine) fpLess(a, b Float, orEq bool) *Term {
+	na, za, ka := m.fpParts(a)
+	nb, zb, kb := m.fpParts(b)
+	notNaN := m.tAnd(m.tNot(na), m.tNot(nb))
+	bothZero := m.tAnd(za, zb)
+	if orEq {
+		return m.tAnd(notNaN, m.tOr(bothZero, m.app(0, "bvule", ka, kb)))
+	}
+	return m.tAnd(notNaN, m.tAnd(m.tNot(bothZero), m.app(0, "bvult", ka, kb)))
+}
+
+func (m *Machine) fpEq(a, b Float) *Term {
+	na, za, _ := m.fpParts(a)
+	nb, zb, _ := m.fpParts(b)
+	return m.tAnd(m.tAnd(m.tNot(na), m.tNot(nb)), m.tOr(m.tAnd(za, zb), m.tEq(a.BV(), b.BV())))
 }
